@@ -123,6 +123,15 @@ structure RollContract (roll : RollFn) (path : Path) (arch : Disk → List Bytes
   err : ∀ fault d e d', roll path fault d = (.error e, d') →
     d'.get? path = d.get? path ∧ ∃ j, arch d' = (arch d).drop j
 
+/-- `RollContract` with the retention bound: one call of the roller discards at most ONE whole
+oldest archive (`j ≤ 1`), whether it succeeds or fails — "only whole oldest files may have been
+discarded by the retention window", one per rotation request. -/
+structure RollContractB (roll : RollFn) (path : Path) (arch : Disk → List Bytes) : Prop
+    extends RollContract roll path arch where
+  okB : ∀ fault d x d' a, roll path fault d = (.ok x, d') → d.get? path = some a →
+    ∃ j, j ≤ 1 ∧ arch d' = (arch d ++ [a]).drop j
+  errB : ∀ fault d e d', roll path fault d = (.error e, d') → ∃ j, j ≤ 1 ∧ arch d' = (arch d).drop j
+
 /-- the delete roller retains nothing -/
 theorem rollContract_delete (path : Path) : RollContract (fun p f d => deleteRoll p f d) path (fun _ => []) := by
   refine ⟨fun _ _ _ => rfl, ?_, ?_⟩
@@ -141,6 +150,11 @@ theorem rollContract_delete (path : Path) : RollContract (fun p f d => deleteRol
         rw [← (Prod.mk.inj h).2]
         exact ⟨hg, 0, rfl⟩
       | some c => simp [hg] at h
+
+theorem rollContractB_delete (path : Path) : RollContractB (fun p f d => deleteRoll p f d) path (fun _ => []) :=
+  { toRollContract := rollContract_delete path
+    okB := fun _ _ _ _ _ _ _ => ⟨1, Nat.le_refl _, by simp⟩
+    errB := fun _ _ _ _ _ => ⟨0, by omega, rfl⟩ }
 
 theorem moveFile_get_other (src dst q : Path) (d : Disk) (h1 : q ≠ src) (h2 : q ≠ dst) :
     (moveFile src dst d).get? q = d.get? q := by
